@@ -70,7 +70,7 @@ Inductive pyval :=
 | VInt (z : Z)
 | VFloat (enc4 enc8 : list Z)        (* a float, with its encodings as C float and double *)
 | VBytes (b : list Z)
-| VStr (cps : list Z)                (* code points, all < 0x10000 *)
+| VStr (cps : list Z)                (* code points 0..0x10FFFF, lone surrogates included *)
 | VList (l : list pyval)             (* list or tuple *)
 | VDict (l : list (Z * pyval))       (* key = position of the named field in ct_extra; -1: no such field *)
 | VCData (same : bool) (data : list Z) (alen : Z)
@@ -110,7 +110,10 @@ Definition conv_prim (k : pkind) (s : Z) (v : pyval) : res (list Z) :=
       let e := if s =? 4 then e4 else e8 in
       if mlen e =? s then Ok e else Err TypeError
   | KChar, VBytes [b] => if s =? 1 then Ok (le_bytes s b) else Err TypeError
-  | KChar, VStr [c] => if s =? 1 then Err TypeError else Ok (le_bytes s c)
+  | KChar, VStr [c] =>
+      if s =? 1 then Err TypeError
+      else if (s =? 2) && (65535 <? c) then Err TypeError     (* _my_PyUnicode_AsSingleChar16 *)
+      else Ok (le_bytes s c)
   | KPtr, VPtr a => Ok (le_bytes s a)
   | _, _ => Err TypeError
   end.
@@ -137,12 +140,21 @@ Definition conv_bitfield (k : pkind) (s shift bits : Z) (v : pyval) (unit_old : 
 
 Definition SSIZE_MAX := 2 ^ 63 - 1.
 
-(* get_new_array_length 1345: (length, was the initialiser only a length?) *)
-Definition get_new_array_length (v : pyval) : res (Z * bool) :=
+(* wchar_helper_3.h: a str as char16_t units (_my_PyUnicode_AsChar16: astral code points become
+   surrogate pairs, _my_PyUnicode_SizeAsChar16 counts them twice) or as char32_t units *)
+Definition utf16_units (cps : list Z) : list Z :=
+  flat_map (fun c => if 65535 <? c
+                     then [Z.lor 55296 (Z.shiftr (c - 65536) 10); Z.lor 56320 (Z.land (c - 65536) 1023)]
+                     else [c]) cps.
+Definition str_units (itemsize : Z) (cps : list Z) : list Z :=
+  if itemsize =? 2 then utf16_units cps else cps.
+
+(* get_new_array_length 1345 (ctitem->ct_size, value): (length, was the initialiser only a length?) *)
+Definition get_new_array_length (itemsize : Z) (v : pyval) : res (Z * bool) :=
   match v with
   | VList l => Ok (mlen l, false)
   | VBytes b => Ok (mlen b + 1, false)
-  | VStr c => Ok (mlen c + 1, false)
+  | VStr c => Ok (mlen (str_units itemsize c) + 1, false)
   | VInt z => if z <? 0 then Err ValueError
               else if SSIZE_MAX <? z then Err OverflowError else Ok (z, true)
   | _ => Err TypeError
@@ -206,7 +218,7 @@ Definition is_cdata (x : pyval) : bool := match x with VCData _ _ _ => true | _ 
 Definition size_field (rec : list lfield -> pyval -> Z -> res Z) (f : lfield) (x : pyval) (opt : Z) : res Z :=
   let ft := lf_type f in
   if is_flex ft then
-    bind (get_new_array_length x) (fun lb =>
+    bind (get_new_array_length (lsize (item_of ft)) x) (fun lb =>
     add_varsize_length (lf_off f) (lsize (item_of ft)) (fst lb) opt)
   else if agg_var ft && negb (is_cdata x) then
     bind (rec (agg_fields ft) x (lsize ft)) (fun subsize =>
@@ -253,9 +265,10 @@ Definition fill_array (rec : Z -> pyval -> mem -> res mem) (item : ltype) (len o
       else Err TypeError
   | VStr c =>
       if wide_char_item item then
-        if (0 <=? len) && (len <? mlen c) then Err IndexError
+        let u := str_units isz c in
+        if (0 <=? len) && (len <? mlen u) then Err IndexError
         else
-          let src := if mlen c =? len then c else c ++ [0] in
+          let src := if mlen u =? len then u else u ++ [0] in
           write off (flat_map (le_bytes isz) src) m
       else Err TypeError
   | VCData true data alen =>
@@ -282,7 +295,7 @@ Definition fill_field (rec : ltype -> Z -> pyval -> mem -> res mem) (off : Z)
       end
     else rec ft (off + lf_off f) x m in
   if is_flex ft then
-    bind (get_new_array_length x) (fun lb => if snd lb then Ok m else go m)
+    bind (get_new_array_length (lsize (item_of ft)) x) (fun lb => if snd lb then Ok m else go m)
   else go m.
 
 (* filling pass: convert_from_object(data + off, t, init) *)
@@ -321,7 +334,7 @@ Definition alloc_size (fuel : nat) (T : newtype) (init : pyval) : res Z :=
         else Ok datasize
   | NewArr item len =>
       if len <? 0 then
-        bind (get_new_array_length init) (fun lb =>
+        bind (get_new_array_length (lsize item) init) (fun lb =>
         if SSIZE_MAX <? fst lb * lsize item then Err OverflowError else Ok (fst lb * lsize item))
       else Ok (len * lsize item)
   end.
